@@ -38,152 +38,16 @@ def r2_constructor(run, tree):
     df.check_vector_forms(run, tree)
 
 
-def _run_pv(tree, zero_mode, comps=("x", "y", "z")):
-    fi = tree.func(PV)
-    u = UnitV(1, {"L": 1})
-    v = VectorV({c: ArrayV(S(c), u) for c in comps})
-    env = {}
-    if zero_mode is not None:
-        env[("zero?", repr(R(S("z"))))] = zero_mode
-    ev = QEval(tree, fi, env)
-    return fi, ev.call_function(fi, [v], {})
-
-
 def r3_perpendicular(run, tree):
-    run.rule("C18.R3", "perpendicular_vector: orthogonal to the input and non-vanishing in every branch", "D1 rational identities",
-             "", floor=3)
-    fi = tree.func(PV)
-    run.analysed(fi)
-    modes = []
-    try:
-        _run_pv(tree, None)
-        modes = [None]
-    except QError as e:
-        if "undecided test" in str(e):
-            modes = [True, False]
-        else:
-            run.unresolved(PV, fi.where(), "cannot execute symbolically: %s" % e)
-            return
-    except (Unsupported, DimError) as e:
-        run.unresolved(PV, fi.where(), "cannot execute symbolically: %s" % e)
-        return
-    x, y, z = R(S("x")), R(S("y")), R(S("z"))
-    for mode in modes:
-        label = {None: "all inputs", True: "z == 0", False: "z != 0"}[mode]
-        construct = "%s[%s]" % (PV, label)
-        try:
-            _, out = _run_pv(tree, mode)
-        except (Unsupported, QError, DimError) as e:
-            run.unresolved(construct, fi.where(), "cannot execute symbolically: %s" % e)
-            continue
-        if not isinstance(out, VectorV) or len(out.comps) != 3:
-            run.violated(construct, fi.where(), "returns %r" % (out,), "VectorBasis(n=...) for a bare normal")
-            continue
-        c = [out.comps[k].vals for k in "xyz"]
-        dot = c[0] * x + c[1] * y + c[2] * z
-        if mode is True:
-            dot = dot.subs({"z": 0})
-            c = [ci.subs({"z": 0}) for ci in c]
-        run.ob(construct + "::orthogonal", dot == R(0), fi.where(), "result (%r, %r, %r); result . input = %r" % (c[0], c[1], c[2], dot),
-               "u is not perpendicular to the requested normal: the image plane is tilted")
-        # non-vanishing: clear denominators, then rank condition
-        num = []
-        for ci in c:
-            num.append(ci.n)
-        const_nonzero = any(p.is_const() and p.const_value() != 0 for p, ci in zip(num, c) if ci.d.is_const())
-        ok_nv = const_nonzero
-        detail = "a component is a non-zero constant" if const_nonzero else ""
-        if not const_nonzero:
-            rows = []
-            linear = True
-            for p in num:
-                row = []
-                for s_ in ("x", "y", "z"):
-                    co = p.coeff_of(s_, 1)
-                    if not co.is_const():
-                        linear = False
-                        break
-                    row.append(co.const_value())
-                rest = p - sum((Poly.sym(s_) * rw for s_, rw in zip(("x", "y", "z"), row)), Poly())
-                if rest.t:
-                    linear = False
-                rows.append(row)
-            if not linear:
-                run.unresolved(construct + "::non-vanishing", fi.where(), "components are not linear: cannot decide the zero set")
-                continue
-            if mode is True:
-                rows.append([F(0), F(0), F(1)])
-            rk = rank(rows)
-            if rk == 3:
-                ok_nv, detail = True, "the components vanish only for the zero vector"
-            elif mode is False and rank(rows + [[F(0), F(0), F(1)]]) == 3:
-                ok_nv, detail = True, "the components vanish only where z == 0, excluded by the branch condition"
-            else:
-                ker = kernel_vector(rows)
-                ok_nv, detail = False, "the result is the zero vector for the non-zero input (x,y,z) = %s" % (ker,)
-        run.ob(construct + "::non-vanishing", ok_nv, fi.where(), detail,
-               "a normal such as (1,-1,0): u = v = 0, every pixel samples the origin")
-        unit_ok = all(out.comps[k].unit.same(out.comps["x"].unit) for k in "xyz")
-        run.ob(construct + "::unit", unit_ok, fi.where(), "components share one unit: %s" % unit_ok, "", nontrivial=False)
-
-
-def rank(rows):
-    m = [list(r) for r in rows]
-    rk = 0
-    ncol = len(m[0]) if m else 0
-    for col in range(ncol):
-        piv = None
-        for r in range(rk, len(m)):
-            if m[r][col] != 0:
-                piv = r
-                break
-        if piv is None:
-            continue
-        m[rk], m[piv] = m[piv], m[rk]
-        for r in range(len(m)):
-            if r != rk and m[r][col] != 0:
-                f = m[r][col] / m[rk][col]
-                m[r] = [a - f * b for a, b in zip(m[r], m[rk])]
-        rk += 1
-    return rk
-
-
-def kernel_vector(rows):
-    """A non-zero integer vector in the kernel of a 3-column system (search in a small box)."""
-    for a in range(-2, 3):
-        for b in range(-2, 3):
-            for c in range(-2, 3):
-                if (a, b, c) != (0, 0, 0) and all(r[0] * a + r[1] * b + r[2] * c == 0 for r in rows):
-                    return (a, b, c)
-    return "?"
+    run.rule("C18.R3", "perpendicular_vector: orthogonal to the input and non-vanishing in every branch, for ALL inputs of the branch",
+             "D7 fold with symbolic components + rank condition on the linear components", "", floor=3)
+    df.check_perpendicular(run, tree)
 
 
 def r4_handedness(run, tree):
-    run.rule("C18.R4", "handedness: u x (n x u) is parallel to +n for the repository's cross product; roll is cyclic",
-             "D1 polynomial identity", "", floor=1)
-    fi = tree.func("core/vector.py::Vector.cross")
-    n = VectorV({c: ArrayV(S("n" + c), DIMLESS) for c in "xyz"})
-    u = VectorV({c: ArrayV(S("u" + c), DIMLESS) for c in "xyz"})
-    try:
-        ev = QEval(tree, fi, {})
-        w = ev.call_function(fi, [n, u], {})          # v = n x u  (as written in VectorBasis.__init__)
-        ev2 = QEval(tree, fi, {})
-        t = ev2.call_function(fi, [u, w], {})         # u x v
-    except (Unsupported, QError, DimError) as e:
-        run.unresolved("core/vector.py::Vector.cross::triple-product", fi.where(), "cannot execute: %s" % e)
-        return
-    run.analysed(fi)
-
-    def vdot(a, b):
-        tot = R(0)
-        for c in "xyz":
-            tot = tot + a.comps[c].vals * b.comps[c].vals
-        return tot
-    lhs = vdot(t, n)
-    rhs = vdot(u, u) * vdot(n, n) - vdot(u, n) * vdot(u, n)
-    run.ob(VB + "::u-cross-v-parallel-to-n", lhs == rhs, fi.where(),
-           "(u x (n x u)) . n %s |u|^2 |n|^2 - (u.n)^2" % ("==" if lhs == rhs else "!="),
-           "with v = n x u the basis is left-handed (u x v = -n): the map is mirrored")
+    from . import vecq_folds as vq
+    run.rule("C18.R4", "handedness: (u x (n x u)).n = |u|^2|n|^2 - (u.n)^2 for the repository's cross product", "D7 fold of Vector.cross with symbolic components", "", floor=1)
+    vq.check_triple_product(run, tree)
 
 
 def r5_forms(run, tree):
